@@ -76,6 +76,7 @@ class Contract:
         self.captures = []    # (ghost name, local name, expr, ctype)
         self.assert_attrs = {}
         self.captures_before = []
+        self.alt_harness = {}
         self.uses = []        # other contract files whose ghost declarations this one refers to
         self.markers = []     # (line, id)
         if not os.path.exists(path):
@@ -108,6 +109,10 @@ class Contract:
                     cur = ('harness', no + 1, [])
                     self.harness = cur
                     self.markers.append((no, 'harness'))
+                elif kind == 'harness-alt':
+                    cur = ('harness-alt', no + 1, [])
+                    self.alt_harness[rest.split()[0]] = cur
+                    self.markers.append((no, 'harness-alt'))
                 elif kind == 'harness-pre':
                     cur = ('harness-pre', no + 1, [])
                     self.harness_pre = cur
